@@ -395,7 +395,7 @@ pub fn run(started: Instant) -> i32 {
         rep,
         Meta {
             level: "exploration",
-            rule: "the mlar binary built from the working tree is run for seeds {empty, 'a', unicode, two pinned test seeds, punctuation, 4096 chars} (keygen --seed, twice - the second time over longer pre-existing key files) and for 5 parent keys (3 seeded X25519 DER keys, an Ed25519-form DER key, a PEM key) x every list of derivation paths of length 1..3 over {'', 'a', 'App X', unicode, 'CN=x,O=y', '--path', punctuation, leading space + trailing tab} (keyderive, twice - the second time over longer pre-existing key files -, plus the stepwise composition for lists of length >= 2); the key files must equal byte for byte (PEM line endings normalised) the harness's own implementation of the README algorithm (own ChaCha20 block function, own HMAC/HKDF-SHA512, own DER/PEM writer; X25519 base multiplication from x25519-dalek), be reproducible, compositional, and the public file must match the private file. 4 frozen known answers guard the harness itself".to_string(),
+            rule: "the mlar binary built from the working tree is run for seeds {empty, 'a', unicode, two pinned test seeds, punctuation, 4096 chars} (keygen --seed, twice - the second time over longer pre-existing key files) and for 5 parent keys (3 seeded X25519 DER keys, an Ed25519-form DER key, a PEM key) x every list of derivation paths of length 1..3 over {'', 'a', 'App X', unicode, 'CN=x,O=y', '--path', punctuation, leading space + trailing tab} (keyderive, twice - the second time over longer pre-existing key files -, once more with the parent key delivered on /dev/stdin, plus the stepwise composition for lists of length >= 2); the key files must equal byte for byte (PEM line endings normalised) the harness's own implementation of the README algorithm (own ChaCha20 block function, own HMAC/HKDF-SHA512, own DER/PEM writer; X25519 base multiplication from x25519-dalek), be reproducible, compositional, and the public file must match the private file. 4 frozen known answers guard the harness itself".to_string(),
             exhaustive: true,
             bounds: json!({"cases": cases.len(), "parents": ps.len(), "path_alphabet": alphabet, "max_paths": maxlen}),
             assumptions: vec!["PEM formatting (line length 64, line ending) is not specified by the README: line endings are normalised before comparison".to_string()],
